@@ -12,6 +12,7 @@ CONSTANTS Family = "bor"
           MaxStored = 3
           MaxLen = 4
           EmitOn = TRUE
+          TwoBranch = FALSE
           TraceLen = 0
 VIEW View
 INVARIANT PropC29
